@@ -30,7 +30,7 @@ add("C14", "exploration", "property-based testing of InferenceTable::relate agai
     "Generated relate histories; success equivalence, MGU equality via canonical state of all variables, residual kinds/universes, lifetime obligations, covariant re-relation incl. universe soundness of the intermediate state.",
     "Reference unifier in harness/src/ir.rs is trusted; no TyKind::Error.", "DESIGN.md 2/C14")
 add("C15", "exploration", "property-based testing: state invariant over generated relate histories + order symmetry",
-    "Canonical state of all variables before/after every failing relate must be identical; relate(a,b) ok iff relate(b,a) ok.",
+    "Canonical state of all variables before/after every failing relate must be identical; relate(a,b) ok iff relate(b,a) ok. Higher-ranked fn-pointer probes: a failing relate must also leave the next universe / variable of the table unchanged.",
     "State observed through canonicalization on a clone.", "DESIGN.md 2/C15")
 add("C16", "exploration", "metamorphic + round-trip property-based testing of canonicalize / u_canonicalize / instantiate / invert",
     "Renaming invariance, inconsistent renamings distinguished, pre-unified variables identified, first-occurrence numbering, binder kinds/universes, instantiate/canonicalize and universe round trips, invert mapping — on generated values with type/lifetime/const variables and placeholders.",
@@ -57,7 +57,7 @@ add("C06", "exploration", "property-based testing against a reference implied-bo
     "Generated supertrait hierarchies and struct where-clauses; goal pairs with and without hypotheses in generated interleavings: exactness against the reference closure, and no leak of hypotheses between solves.",
     "Closure bounded (truncated closure only weakens the oracle); recursive solver's ambiguity with existential trait parameters is a known finding.", "DESIGN.md 2/C06")
 add("C07", "exploration", "property-based testing against an independent associated-type normaliser (one-way matching + ground evaluator)",
-    "Generated coherent associated-type programs; Normalize / projection-equality goals with unknown, right and wrong candidates, forall variants: Unique answers must name exactly the reference value, None only when no impl applies.",
+    "Generated coherent associated-type programs; Normalize / projection-equality goals with unknown, right and wrong candidates, forall variants: Unique answers must name exactly the reference value, None only when no impl applies. Every goal is also solved through ChalkDatabase and must agree with the answer on the lowered Program.",
     "Programs coherent by construction; nested projections normalised recursively up to depth 6.", "DESIGN.md 2/C07")
 add("C08", "exploration", "property-based testing against a rule table for the built-in traits",
     "Generated programs with Sized / Copy / Clone / Tuple / FnPtr lang items and nested built-in types; closed goals compared with a rule table written from the property and the chalk book.",
